@@ -147,6 +147,20 @@ Example C02_never_again_nonvacuous :
   let s'' := fst (srun true s' [SAddEvent 2%N 0%nat (le_enc 8 1 ++ le_enc 8 9)]) in
   map fst (consume_pieces s [] ) = [0; 1; 2]%N /\ map fst (consume_pieces s'' []) = [2%N] /\ map (fun p => length (snd p)) (consume_pieces s'' []) = [2%nat].
 Proof. exact never_again_nonvacuous. Qed.
+
+(** (2g) the replacement step: when addEvent takes the slow path, the writer's old channel is closed in the resulting state (so 2d-2f
+    apply to it from the next consume on), its uid is below the replacement's (so 2e puts its piece first), and the writer continues on
+    the replacement channel. *)
+Theorem C02_replacement_closes_the_old_channel : forall s0 w k p uid c0, WInv s0 -> snd (add_event s0 w k p) = false ->
+  assoc w (writers s0) = Some uid -> find_chan uid (channels s0) = Some c0 ->
+  let s := fst (add_event s0 w k p) in
+  (exists c, In c (channels s) /\ ch_uid c = uid /\ ch_owner c = None) /\ (uid < next_uid s0)%N /\
+  (exists cnew, In cnew (channels s) /\ ch_uid cnew = next_uid s0 /\ ch_owner cnew = Some w) /\ assoc w (writers s) = Some (next_uid s0).
+Proof.
+  generalize (eq_refl : SrcFacts.writer_replace_shape = true). generalize SrcFacts.writer_replace_shape. intros b1 ->.
+  exact replacement_closes_the_old_channel.
+Qed.
+Print Assumptions C02_replacement_closes_the_old_channel.
 Example C02_replacement_nonvacuous :
   let s := fst (srun true (sess_init default_cs) rm_ops) in
   map (fun c => match ch_owner c with None => true | _ => false end) (channels s) = [true; true; false] /\
